@@ -13,10 +13,16 @@ Plan gen_c29(sk::Rng& r, Tier) {
     p.knobs["chunks"] = r.pick<std::int64_t>({0, 1, 2, 3, 4, 6});
     p.knobs["bulk"] = r.chance(1, 5) ? r.pick<std::int64_t>({40, 190, 230, 420}) : 0;  // further chunks placed straight into the daemon's node (a long ENTRIES value)
     p.knobs["advertise"] = static_cast<std::int64_t>(r.below(3));  // 0 none, 1 one manual endpoint, 2 allow-private (several auto endpoints)
+    p.knobs["short_lived"] = r.chance(1, 3) ? r.range(1, 2) : 0;  // chunks that reach the end of their life during the run
     const int n = static_cast<int>(r.range(2, 6));
     for (int i = 0; i < n; ++i) {
         Op op;
-        op.k = r.pick<std::string>({"cli_list", "cli_list", "client_list", "client_defaults", "client_status", "client_metrics", "cli_defaults", "cli_status"});
+        if (p.knobs["short_lived"] > 0 && r.chance(1, 2)) {
+            // move to a chosen distance before a short-lived chunk's deadline, then list
+            Op w; w.k = "wait_near_deadline"; w.a = {static_cast<std::int64_t>(r.below(2)), r.pick<std::int64_t>({1800, 950, 600, 250, 60})};
+            p.ops.push_back(w);
+            op.k = r.pick<std::string>({"cli_list", "client_list", "client_list"});
+        } else op.k = r.pick<std::string>({"cli_list", "cli_list", "client_list", "client_defaults", "client_status", "client_metrics", "cli_defaults", "cli_status"});
         p.ops.push_back(op);
     }
     return p;
@@ -76,6 +82,28 @@ void exec_c29(const Plan& p, Ctx& ctx) {
         });
         if (ok) ctx.boundary("response_header_over_16k"); else ctx.probe("bulk_store_failed");
     }
+    // short-lived chunks: placed straight into the daemon's node; the model knows their exact deadline
+    std::map<std::string, std::int64_t> deadline;   // only for chunks that can expire during the run
+    std::vector<std::string> short_ids;
+    if (const auto sl = p.knob("short_lived", 0); sl > 0) {
+        d.with_node([&](en::Node& n) {
+            for (std::int64_t k = 0; k < sl; ++k) {
+                const auto pl = make_payload(48, 920000 + static_cast<std::uint64_t>(k));
+                en::ChunkData data(pl.begin(), pl.end());
+                en::ChunkId id{};
+                const auto dg = en::crypto::Sha256::digest(std::span<const std::uint8_t>(data));
+                std::copy(dg.begin(), dg.end(), id.begin());
+                const auto m = n.store_chunk(id, std::move(data), std::chrono::seconds(7 + 4 * k));
+                const std::string hexid = hz::hex(dg.data(), dg.size());
+                deadline[hexid] = wall_to_sim(m.expires_at);
+                short_ids.push_back(hexid);
+            }
+        });
+    }
+    // at instant t: which chunks must be listed (live throughout the request) and which may be (live when it started)
+    std::int64_t t_req0 = 0;
+    auto must_show = [&](std::int64_t t_end) { std::set<std::string> v = model; for (auto& [id, dl] : deadline) if (dl > t_end + 5 * kMs) v.insert(id); return v; };
+    auto may_show = [&](std::int64_t t_start) { std::set<std::string> v = model; for (auto& [id, dl] : deadline) if (dl > t_start - 5 * kMs) v.insert(id); return v; };
     if (model.size() >= 2) ctx.boundary("multi_line_value");
     const std::vector<std::string> cli_base{"eph", "--control-port", std::to_string(d.control_port)};
 
@@ -102,6 +130,9 @@ void exec_c29(const Plan& p, Ctx& ctx) {
                 if (colon != std::string::npos && colon < 40 && needle.find("ENTRIES") == 0) needle = needle.substr(colon + 1);
                 if (needle.size() > 70 && needle.find(',') != std::string::npos) needle = needle.substr(0, needle.rfind(','));  // drop the ttl column of a chunk entry
                 if (needle.empty()) continue;
+                // a short-lived chunk may expire between the parsed exchange and this independent one: its entry and the count are volatile
+                if (!deadline.empty() && needle.rfind("COUNT:", 0) == 0) continue;
+                { bool volatile_entry = false; for (auto& [id, dl] : deadline) if (needle.find(id) != std::string::npos) volatile_entry = true; if (volatile_entry) continue; }
                 if (dump.find(needle) == std::string::npos)
                     ctx.violate("C29.field_content_lost." + command, fmt("%s: the daemon sent '%s' but it is in no field the control client parsed", command.c_str(), needle.substr(0, 90).c_str()));
             }
@@ -111,6 +142,13 @@ void exec_c29(const Plan& p, Ctx& ctx) {
     for (auto& op : p.ops) {
         ++ctx.ops_done;
         if (!sk::alive(d.pid)) { ctx.violate("C29.daemon_died", "the daemon process ended: " + sk::info(d.pid).exit_detail); break; }
+        if (op.k == "wait_near_deadline") {
+            if (short_ids.empty()) continue;
+            const std::int64_t target = deadline[short_ids[static_cast<std::size_t>(op.at(0)) % short_ids.size()]] - op.at(1) * kMs;
+            if (target > sk::now_ns()) { sk::sleep_ns(target - sk::now_ns()); ctx.boundary("listing_in_a_chunks_last_two_seconds"); }
+            continue;
+        }
+        t_req0 = sk::now_ns();
         if (op.k == "cli_list") {
             auto args = cli_base; args.push_back("list");
             const CliRun run = run_eph(d.host, args);
@@ -125,10 +163,11 @@ void exec_c29(const Plan& p, Ctx& ctx) {
                 const std::size_t id = line.find("ID=");
                 if (id != std::string::npos) shown.insert(line.substr(id + 3, 64));
             }
-            if (reported != static_cast<long>(model.size()))
-                ctx.violate("C29.list_count", fmt("`eph list` reports %ld local chunks; the daemon holds %zu", reported, model.size()));
-            for (auto& m : model) if (!shown.count(m)) { ctx.violate("C29.list_missing_chunk", fmt("`eph list` shows %zu of %zu live chunks (missing %s...)", shown.size(), model.size(), m.substr(0, 12).c_str())); break; }
-            for (auto& sid : shown) if (!model.count(sid)) ctx.violate("C29.list_spurious_chunk", "`eph list` shows a chunk the daemon does not hold: " + sid.substr(0, 12));
+            const auto must = must_show(sk::now_ns()), may = may_show(t_req0);
+            if (reported < static_cast<long>(must.size()) || reported > static_cast<long>(may.size()))
+                ctx.violate("C29.list_count", fmt("`eph list` reports %ld local chunks; the daemon holds %zu (%zu that were live when the request started)", reported, must.size(), may.size()));
+            for (auto& m : must) if (!shown.count(m)) { ctx.violate("C29.list_missing_chunk", fmt("`eph list` shows %zu of %zu live chunks (missing %s...%s)", shown.size(), must.size(), m.substr(0, 12).c_str(), deadline.count(m) ? fmt(", which lives for another %.3f s", (deadline[m] - sk::now_ns()) / 1e9).c_str() : "")); break; }
+            for (auto& sid : shown) if (!may.count(sid)) ctx.violate("C29.list_spurious_chunk", "`eph list` shows a chunk the daemon does not hold: " + sid.substr(0, 12));
         } else if (op.k == "cli_defaults" || op.k == "cli_status") {
             auto args = cli_base; args.push_back(op.k == "cli_defaults" ? "defaults" : "status");
             const CliRun run = run_eph(d.host, args);
@@ -142,10 +181,14 @@ void exec_c29(const Plan& p, Ctx& ctx) {
             ctx.probe("client_" + command);
             if (command == "LIST") {
                 const auto cnt = resp->fields.count("COUNT") ? resp->fields.at("COUNT") : "?";
-                if (cnt != std::to_string(model.size())) ctx.violate("C29.client_list_count", "ControlClient LIST: COUNT=" + cnt + ", daemon holds " + std::to_string(model.size()));
+                const auto must = must_show(sk::now_ns()), may = may_show(t_req0);
+                const long cnt_n = cnt == "?" ? -1 : atol(cnt.c_str());
+                if (cnt_n < static_cast<long>(must.size()) || cnt_n > static_cast<long>(may.size())) ctx.violate("C29.client_list_count", "ControlClient LIST: COUNT=" + cnt + ", daemon holds " + std::to_string(must.size()) + " live chunks");
                 std::size_t entries = 0;
-                if (resp->fields.count("ENTRIES")) { std::istringstream es(resp->fields.at("ENTRIES")); std::string e; while (std::getline(es, e)) if (!e.empty()) { ++entries; if (!model.count(e.substr(0, 64))) ctx.violate("C29.client_list_spurious", "ControlClient LIST entry for an unknown chunk"); } }
-                if (entries != model.size()) ctx.violate("C29.client_list_entries", fmt("ControlClient LIST: ENTRIES holds %zu entries, daemon holds %zu chunks", entries, model.size()));
+                std::set<std::string> listed;
+                if (resp->fields.count("ENTRIES")) { std::istringstream es(resp->fields.at("ENTRIES")); std::string e; while (std::getline(es, e)) if (!e.empty()) { ++entries; listed.insert(e.substr(0, 64)); if (!may.count(e.substr(0, 64))) ctx.violate("C29.client_list_spurious", "ControlClient LIST: ENTRIES names a chunk the daemon does not hold: " + e.substr(0, 12)); } }
+                if (entries < must.size() || entries > may.size()) ctx.violate("C29.client_list_entries", fmt("ControlClient LIST: ENTRIES holds %zu entries, daemon holds %zu live chunks", entries, must.size()));
+                for (auto& m : must) if (!listed.count(m)) { ctx.violate("C29.client_list_missing_chunk", fmt("ControlClient LIST omits live chunk %s...%s", m.substr(0, 12).c_str(), deadline.count(m) ? fmt(", which lives for another %.3f s", (deadline[m] - sk::now_ns()) / 1e9).c_str() : "")); break; }
             }
             if (command == "METRICS") {
                 CtlReply raw;
@@ -175,7 +218,7 @@ Scenario make_c29() {
     s.real_components = {"src/main.cpp serve + list/defaults/status paths (real main())", "ControlServer (send_response, handle_list/defaults/status/metrics)", "ControlClient (parse_response)"};
     s.stub_components = {"OS: threads -> fibers, sockets -> simulated TCP, clock, entropy; std::cout of each simulated process captured separately"};
     s.assumptions = {"ground truth for multi-line values is the daemon's state (stored chunk ids) and the raw bytes it put on the wire"};
-    s.rule = "plan = 0..6 stored chunks, advertise configuration, network knobs + 2..6 reads (eph list/defaults/status, ControlClient LIST/DEFAULTS/STATUS/METRICS); non-trivial = at least two chunks (a multi-line value); distinct = plan hash";
+    s.rule = "plan = 0..6 stored chunks (+ optionally hundreds placed directly, + 0..2 short-lived ones), advertise configuration, network knobs + 2..6 reads (eph list/defaults/status, ControlClient LIST/DEFAULTS/STATUS/METRICS), some of them 60..1800 ms before a short-lived chunk's deadline; a chunk that is live throughout a listing must be listed, one that was live when it started may be; non-trivial = at least two chunks (a multi-line value) or a listing inside a chunk's last two seconds; distinct = plan hash";
     s.gen = gen_c29; s.exec = exec_c29; s.kernel_knobs = w4_knobs;
     s.quick_runs = 1200; s.thorough_runs = 60000; s.quick_secs = 55; s.thorough_secs = 900;
     return s;
